@@ -403,6 +403,11 @@ def check(P, R):
         _c18.check_view_guards(P, R, 'C05.c', fq_, lambda c: dotted(c.func) in ('self._get_body_string', 'parse_qsl'), what_,
                                'the body presented to the application is the concatenation of the chunk payloads - also through its parsed views')
     check_chunked_flag(P, R, 'C05.e')
+    # the accumulation of the decoded parts and the cached body are the ones of C04 (both framings go through _body_read / _body): the part loop runs until the
+    # decoder is exhausted - which is where a missing terminator is noticed - and the body a request presents always comes from it, whatever the verb
+    from ..report import run_premise
+    run_premise(R, c04, P, {'C04.d', 'C04.e'}, 'C05.c',
+                'a chunked body is the concatenation of all chunk payloads, and an encoding cut short before its terminating chunk is rejected - under every verb and content type')
     # ---- e: mapping of request errors
     check_errors_mapping(P, R, 'C05.e')
     check_raise_and_body(P, R, 'C05.e')
@@ -454,6 +459,48 @@ def check_errors_mapping(P, R, rid):
              detail='' if ok else f'{c.name} is not mapped to a 4xx response by errors_map (got {status}): _raise looks up the exact class and then the fallback '
              f'class only, so the error is re-raised as it is and answered 500',
              why='a malformed body must be answered as a client error')
+    check_config_reaches_request(P, R, rid)
+
+
+def check_config_reaches_request(P, R, rid):
+    """the table above is DefaultConfig's: the request object has it only if both configuration entry points of the application hand the *merged* configuration
+    (the value stored in self.config) to the request - RequestConfig's own default errors_map is empty"""
+    app = P.cls('ombott.ombott:Ombott')
+    seen = 0
+    for mname in ('__init__', 'setup'):
+        m = app.methods.get(mname)
+        if m is None:
+            continue
+        g, rd = m.cfg, m.rd
+        merged = [st for st in walk_shallow(m.node) if isinstance(st, ast.Assign) and any(dotted(t) == 'self.config' for t in st.targets)]
+        for c in walk_shallow(m.node):
+            if not isinstance(c, ast.Call):
+                continue
+            arg = None
+            if dotted(c.func) == 'self.request.setup' and c.args:
+                arg = c.args[0]
+            elif dotted(c.func) in ('Request', 'BaseRequest'):
+                arg = next((k.value for k in c.keywords if k.arg == 'config'), c.args[1] if len(c.args) > 1 else None)
+                if arg is None:
+                    continue
+            if arg is None:
+                continue
+            seen += 1
+            cn = g.node_of_stmt(c)[0]
+            ok = False
+            if merged:
+                mv = merged[0].value
+                if isinstance(arg, ast.Name):
+                    ds = rd.root_defs(cn, arg.id)
+                    ok = bool(ds) and all(d.value is mv or (d.node is not None and getattr(d.node, 'ast', None) is merged[0]) for d in ds)
+                elif src(arg) == 'self.config':
+                    ok = g.edge_dominates is not None and g.must_pass(g.entry, cn, [g.node_of_stmt(merged[0])[0]])
+            R.ob(rid, m, c, ok, text=f'`{short(c)}` receives the merged configuration stored in self.config', detail='' if ok else
+                 f'`{short(c)}` does not receive the value stored in self.config (`{short(merged[0]) if merged else "?"}`): the request is configured from the caller\'s partial '
+                 f'settings, RequestConfig fills the gaps with its own defaults, and its errors_map is empty - RequestError / BodySizeError / BodyParsingError are re-raised '
+                 f'unmapped and answered 500',
+                 why='a malformed body must be answered as a client error', key_extra='merged-config')
+    R.require(seen >= 2, f'configuration hand-over to the request: {seen} sites found, 2 confirmed by hand')
 
 
 def check_raise_and_body(P, R, rid):
